@@ -1099,6 +1099,21 @@ impl Store {
     }
 }
 
+#[cfg(feature = "verif")]
+impl Store {
+    /// Close the store completely, including the LMDB environment (which otherwise
+    /// stays cached inside heed until the process exits), so that a following
+    /// `Store::new` on the same directory really reopens everything from disk.
+    pub fn verif_close(self) -> Result<(), Error> {
+        let Store {
+            events, indexes, ..
+        } = self;
+        indexes.close()?;
+        drop(events);
+        Ok(())
+    }
+}
+
 /// The result of screening an event
 #[derive(Debug, Clone, Copy, PartialEq, Eq, Hash)]
 pub enum ScreenResult {
